@@ -15,7 +15,7 @@ R-API        both readers and the writer use only numpy APIs that exist.
 import ast
 import re
 
-from ..engine import AnalysisError, dotted, iter_stmts, norm, walk_expr, const_str, kw
+from ..engine import parent_chain, AnalysisError, dotted, iter_stmts, norm, walk_expr, const_str, kw
 from ..prov import Prov, is_input
 from ..report import Finding
 from ..sizealg import Poly
@@ -498,6 +498,55 @@ def run(ctx):
         else:
             ctx.violation(Finding('R-IDKEEP', NB, 'gcvar.__init__', lp[0], 'every field of the tracer-table row is copied onto the variable, including tracerid: for a category with an offset the variable then carries '
                                   'offset + id instead of the id of its block header, the writer stores that, and re-reading applies the offset twice'))
+    # ---- R-REGALL: the structure checks of the memory-mapped reader hold for every time step, not for the first and the last only
+    ctx.rule('R-REGALL', 'first reader: the per-block regularity assertions compare every time step with the first one (.all() over the whole header column)')
+    nra = 0
+    for st in iter_stmts(b1.body):
+        if not isinstance(st, ast.Assert):
+            continue
+        if not any(isinstance(p_, ast.For) and norm(p_.iter).endswith('.dtype.names') for p_ in parent_chain(st)):
+            continue            # only the per-block checks over all time steps (header columns of the block table)
+        cmps = [c for c in ast.walk(st.test) if isinstance(c, ast.Compare) and len(c.ops) == 1 and isinstance(c.ops[0], ast.Eq)]
+        for c in cmps:
+            sides = [c.left, c.comparators[0]]
+            firsts = [x for x in sides if isinstance(x, ast.Subscript) and isinstance(x.value, ast.Name) and norm(x.slice) == '0']
+            if not firsts:
+                continue
+            arr = firsts[0].value.id
+            other = [x for x in sides if x is not firsts[0]][0]
+            if not any(isinstance(n_, ast.Name) and n_.id == arr for n_ in ast.walk(other)):
+                continue
+            nra += 1
+            whole = isinstance(other, ast.Name) and other.id == arr
+            wrapped = any(isinstance(p_, ast.Call) and isinstance(p_.func, ast.Attribute) and p_.func.attr == 'all' for p_ in parent_chain(c)) or \
+                any(isinstance(p_, ast.Call) and (dotted(p_.func) or '').split('.')[-1] == 'all' for p_ in parent_chain(c))
+            if whole and wrapped:
+                ctx.ok('R-REGALL', '%s@%d' % (arr, st.lineno), wb1, norm(st.test)[:60])
+            else:
+                ctx.violation(Finding('R-REGALL', B, 'bpch1.__init__', st, 'the check compares %s[0] with %s only: a file whose middle time step holds other blocks (same sizes) passes, the memory-mapped reader '
+                                      'serves those blocks under the wrong tracer names, and the block-walking reader is never tried' % (arr, norm(other))), oid='%s' % arr)
+    ctx.floor('regularity assertions judged by R-REGALL', nra, 2)
+    # ---- R-PIECEORDER: the block-walking reader presents the time blocks of a variable in file order
+    ctx.rule('R-PIECEORDER', 'second reader: the time blocks of a variable are concatenated in the order they were found in the file (no sorting)')
+    nbm = ctx.src.mod(NB)
+    gi = nbm.func('gcvar.__getitem__')
+    wgi = 'src/PseudoNetCDF/%s gcvar.__getitem__' % NB
+    loops_ = [l_ for l_ in ast.walk(gi) if isinstance(l_, ast.For) and isinstance(l_.target, ast.Tuple)]
+    if not loops_:
+        ctx.undec('R-PIECEORDER', 'pieces', wgi, 'loop over the time blocks not found')
+    else:
+        lp = loops_[0]
+        it = lp.iter
+        if isinstance(it, ast.Name):
+            d_ = [st for st in iter_stmts(gi.body) if isinstance(st, ast.Assign) and norm(st.targets[0]) == it.id and st.lineno < lp.lineno]
+            it = d_[-1].value if d_ else it
+        reord = [c for c in ast.walk(it) if isinstance(c, ast.Call) and (dotted(c.func) in ('sorted', 'reversed', 'set', 'frozenset') or
+                                                                          (isinstance(c.func, ast.Attribute) and c.func.attr in ('sort', 'reverse')))]
+        if reord:
+            ctx.violation(Finding('R-PIECEORDER', NB, 'gcvar.__getitem__', api.stmt_of(lp.iter) if not isinstance(lp.iter, ast.Name) else lp, 'the time blocks are iterated through %s: for a file whose blocks are not in '
+                                  'chronological order the block-walking reader presents other data per time index than the memory-mapped reader (and the rewrite is not byte-identical)' % norm(reord[0])[:50]))
+        else:
+            ctx.ok('R-PIECEORDER', 'pieces', wgi, 'iterates %s' % norm(it)[:60])
     # ---- R-DIAGFILTER: which lines of diaginfo.dat are data (finite case analysis of the filter)
     from .. import consteval as _ce18
     ctx.rule('R-DIAGFILTER', 'first reader: lines of diaginfo.dat that do not start with # are data lines (offsets are right-aligned, so they start with blanks)')
